@@ -297,6 +297,7 @@ impl Monitor for C02 {
         }
         let ki = (idx % KINDS.len() as u64) as usize;
         let n = nl[((idx / KINDS.len() as u64) % nl.len() as u64) as usize];
+        let n = super::jitter_n(cfg, n, 1, 64, &mut rng);
         let class = cl[((idx / (KINDS.len() * nl.len()) as u64) % cl.len() as u64) as usize];
         let rep = idx / (KINDS.len() * nl.len() * cl.len()) as u64;
         let k = kind_at(ki, n);
